@@ -608,3 +608,239 @@ pub fn gate_in_pass2<S: Src>(s: &mut S) {
     core::mem::forget(res);
     core::mem::forget(common);
 }
+
+// ------------------------------------------------------------------------------------------
+// Skeleton harnesses: the segment-level bookkeeping of build_pass_1 / build_pass_2 on segments
+// WITHOUT items.  With no items the item loops never run, so none of the unfoldable `Item`
+// matches is reached, and what remains is exactly the running-offset / padding arithmetic.
+// (The real pipeline drops empty segments before pass 1; the native replay therefore
+// confirms a counterexample through `build_str` on a program that puts one byte / one nop
+// into each segment.)
+
+fn seg_kind(i: u8) -> SegmentType {
+    match i {
+        0 => SegmentType::Code,
+        1 => SegmentType::Data,
+        _ => SegmentType::Eeprom,
+    }
+}
+
+/// Pass 1: three empty segments (kinds and `.org` addresses symbolic, addresses 0..=7 where 0
+/// means "continue"): each segment starts at its `.org` address or at the running offset of
+/// its kind; a segment that starts below the running offset is rejected; RAM usage is the
+/// extent of the data segments.
+pub fn skeleton_pass1<S: Src>(s: &mut S) {
+    let kinds = s.below(27);
+    // 27 kind combinations in two concrete levels
+    crate::split!(kinds % 9, 0, 9, |lo| {
+        let k0 = lo % 3;
+        let k1 = lo / 3;
+        let hi = kinds / 9;
+        crate::split!(hi, 0, 3, |k2| skeleton_pass1_kinds(s, k0, k1, k2));
+    });
+}
+
+fn skeleton_pass1_kinds<S: Src>(s: &mut S, k0: u8, k1: u8, k2: u8) {
+    s.role(H_C02_STEP, 70);
+    let a = [s.below(8) as u32, s.below(8) as u32, s.below(8) as u32];
+    let k = [k0, k1, k2];
+    let common = CommonContext::new();
+    let ram_start = 0x60u32;
+    // data-segment addresses are absolute RAM addresses: shift the small window up
+    let addr = |i: usize| -> u32 {
+        if k[i] == 1 && a[i] != 0 {
+            ram_start + a[i]
+        } else {
+            a[i]
+        }
+    };
+    let segs = vec![
+        seg(seg_kind(k[0]), addr(0), vec![]),
+        seg(seg_kind(k[1]), addr(1), vec![]),
+        seg(seg_kind(k[2]), addr(2), vec![]),
+    ];
+    let p0 = BuildResultPass0 { segments: segs, messages: vec![] };
+    let res = build_pass_1(p0, &common);
+    // reference
+    let mut off = [0u32, ram_start, 0u32];
+    let mut want = [0u32; 3];
+    let mut want_ok = true;
+    let mut i = 0;
+    while i < 3 {
+        let t = k[i] as usize;
+        let ad = addr(i);
+        if want_ok {
+            if ad == 0 {
+                want[i] = off[t];
+            } else if ad < off[t] {
+                want_ok = false;
+            } else {
+                want[i] = ad;
+                off[t] = ad;
+            }
+        }
+        i += 1;
+    }
+    cov!(res.is_ok(), "!segments laid out");
+    cov!(res.is_err(), "overlapping segment rejected");
+    #[cfg(not(kani))]
+    {
+        s.note_s("kinds", &format!("{:?}", k));
+        s.note_s("addresses", &format!("{:?}", [addr(0), addr(1), addr(2)]));
+        match &res {
+            Ok(r) => s.note_s("pass1", &format!("Ok(addresses={:?} ram_filling={})", r.segments.iter().map(|x| x.address).collect::<Vec<_>>(), r.ram_filling)),
+            Err(e) => s.note_s("pass1", &format!("Err({})", e)),
+        }
+        s.note_s("reference", &format!("ok={} addresses={:?} ram_filling={}", want_ok, want, off[1] - ram_start));
+        // public API: one item per segment (a nop, `.byte 1`, `.db 1`), label values read back
+        // through `.dw` in a trailing code block is too intrusive for the layout; positions in the
+        // images are observable instead
+        api_skeleton(&k, &[addr(0), addr(1), addr(2)]);
+    }
+    chk!(s, res.is_ok() == want_ok, "C02: a segment below the running offset must be rejected, any other accepted");
+    if let Ok(r) = &res {
+        chk!(s, r.segments.len() == 3, "C02: pass 1 lost a segment");
+        if r.segments.len() == 3 {
+            chk!(
+                s,
+                r.segments[0].address == want[0] && r.segments[1].address == want[1] && r.segments[2].address == want[2],
+                "C02: segment start differs from its .org address / the running offset of its kind"
+            );
+        }
+        chk!(s, r.ram_filling == off[1] - ram_start, "C12: RAM usage is not the extent of the data segment");
+    }
+    core::mem::forget(res);
+    core::mem::forget(common);
+}
+
+/// Pass 2: three empty segments with resolved start addresses: each image is padded with zero
+/// bytes up to the start of each of its segments (code in words, EEPROM in bytes), nothing else
+/// is emitted, RAM usage is passed through.
+pub fn skeleton_pass2<S: Src>(s: &mut S) {
+    let kinds = s.below(27);
+    crate::split!(kinds % 9, 0, 9, |lo| {
+        let k0 = lo % 3;
+        let k1 = lo / 3;
+        let hi = kinds / 9;
+        crate::split!(hi, 0, 3, |k2| skeleton_pass2_kinds(s, k0, k1, k2));
+    });
+}
+
+fn skeleton_pass2_kinds<S: Src>(s: &mut S, k0: u8, k1: u8, k2: u8) {
+    s.role(H_C02_STEP, 71);
+    let a = [s.below(6) as u32, s.below(6) as u32, s.below(6) as u32];
+    let rf = s.u16() as u32;
+    let k = [k0, k1, k2];
+    let common = CommonContext::new();
+    let segs = vec![
+        seg(seg_kind(k[0]), a[0], vec![]),
+        seg(seg_kind(k[1]), a[1], vec![]),
+        seg(seg_kind(k[2]), a[2], vec![]),
+    ];
+    let p1 = avra_lib::builder::pass1::BuildResultPass1 { segments: segs, ram_filling: rf, messages: vec![] };
+    let res = build_pass_2(p1, &common);
+    let mut code_len = 0usize;
+    let mut ee_len = 0usize;
+    let mut i = 0;
+    while i < 3 {
+        if k[i] == 0 && 2 * a[i] as usize > code_len {
+            code_len = 2 * a[i] as usize;
+        }
+        if k[i] == 2 && a[i] as usize > ee_len {
+            ee_len = a[i] as usize;
+        }
+        i += 1;
+    }
+    cov!(res.is_ok(), "!segments emitted");
+    #[cfg(not(kani))]
+    {
+        s.note_s("kinds", &format!("{:?}", k));
+        s.note_s("addresses", &format!("{:?}", a));
+        note_result(s, &res);
+        s.note_s("reference", &format!("code_len={} eeprom_len={}", code_len, ee_len));
+        api_skeleton(&k, &a);
+    }
+    chk!(s, res.is_ok(), "C02: pass 2 failed on empty segments");
+    if let Ok(r) = &res {
+        chk!(s, r.code.len() == code_len, "C02: flash image is not padded exactly up to the segment start");
+        chk!(s, r.eeprom.len() == ee_len, "C02: eeprom image is not padded exactly up to the segment start");
+        let mut zero = true;
+        let mut j = 0;
+        while j < 10 {
+            if j < r.code.len() && r.code[j] != 0 {
+                zero = false;
+            }
+            if j < r.eeprom.len() && r.eeprom[j] != 0 {
+                zero = false;
+            }
+            j += 1;
+        }
+        chk!(s, zero, "C02: padding is not zero bytes");
+        chk!(s, r.ram_filling == rf, "C12: RAM usage not passed through pass 2");
+    }
+    core::mem::forget(res);
+    core::mem::forget(common);
+}
+
+/// Native only: the same segment skeleton through `build_str`, one byte / one nop per segment;
+/// prints API-CONFIRMED when an image is not what the byte-accurate reference says.
+#[cfg(not(kani))]
+fn api_skeleton(k: &[u8; 3], a: &[u32; 3]) {
+    let mut src = String::new();
+    // reference images built alongside
+    let mut code: Vec<u8> = vec![];
+    let mut ee: Vec<u8> = vec![];
+    let mut off = [0u32, 0x60, 0];
+    let mut ok = true;
+    for i in 0..3 {
+        let t = k[i] as usize;
+        src.push_str([".cseg\n", ".dseg\n", ".eseg\n"][t]);
+        if a[i] != 0 {
+            src.push_str(&format!(".org {}\n", a[i]));
+            if a[i] < off[t] {
+                ok = false;
+            } else {
+                off[t] = a[i];
+            }
+        }
+        match t {
+            0 => {
+                src.push_str("ser r16\n");
+                if ok {
+                    code.resize(2 * off[0] as usize, 0);
+                    code.extend([0x0f, 0xef]);
+                }
+                off[0] += 1;
+            }
+            1 => {
+                src.push_str(".byte 1\n");
+                off[1] += 1;
+            }
+            _ => {
+                src.push_str(".db 0xa5\n");
+                if ok {
+                    ee.resize(off[2] as usize, 0);
+                    ee.push(0xa5);
+                }
+                off[2] += 1;
+            }
+        }
+    }
+    println!("NOTE: api_source={:?}", src);
+    match std::panic::catch_unwind(|| avra_lib::builder::build_str(&src)) {
+        Err(_) => println!("API-CONFIRMED"),
+        Ok(Err(e)) => {
+            println!("NOTE: api_result=Err({})", e);
+            if ok { println!("API-CONFIRMED") } else { println!("API-NOT-CONFIRMED") }
+        }
+        Ok(Ok(b)) => {
+            println!("NOTE: api_result=Ok(code={:02x?} eeprom={:02x?} ram_filling={})", b.code, b.eeprom, b.ram_filling);
+            println!("NOTE: api_expected=code={:02x?} eeprom={:02x?} ram_filling={}", code, ee, off[1] - 0x60);
+            if !ok || b.code != code || b.eeprom != ee || b.ram_filling != off[1] - 0x60 {
+                println!("API-CONFIRMED")
+            } else {
+                println!("API-NOT-CONFIRMED")
+            }
+        }
+    }
+}
